@@ -339,7 +339,7 @@ pub fn exec_direct(store: &mut AnnotationStore, m: &Model, op: &Op) -> ExecResul
             }),
             |_| None,
         ),
-        Op::Reindex | Op::Restart { .. } | Op::AnnotateFile { .. } => ExecResult::Ok(None),
+        Op::Reindex | Op::Restart { .. } | Op::Checkpoint { .. } | Op::AnnotateFile { .. } => ExecResult::Ok(None),
     }
 }
 
